@@ -40,6 +40,8 @@ structure TW (Node : Type) where
   log : List (PageId × Store Node)
   /-- `child_page_roots` -/
   cpr : List (Path × Node)
+  /-- ghost: the slots written so far (`set_node` / `set_sibling`), in order — what the page diffs must name -/
+  wl : List Path := []
 
 /-- the fixed parameters of a walk -/
 structure TWCfg (Node : Type) where
@@ -54,8 +56,9 @@ variable (H : Hasher Node VH) [DecidableEq Node] (cfg : TWCfg Node)
 
 def TW.cur (a : TW Node) : Node := a.store a.pos
 def TW.sib (a : TW Node) : Node := a.store (sibPath a.pos)
-def TW.setNode (a : TW Node) (n : Node) : TW Node := { a with store := upd a.store a.pos n }
-def TW.setSibling (a : TW Node) (n : Node) : TW Node := { a with store := upd a.store (sibPath a.pos) n }
+def TW.setNode (a : TW Node) (n : Node) : TW Node := { a with store := upd a.store a.pos n, wl := a.wl ++ [a.pos] }
+def TW.setSibling (a : TW Node) (n : Node) : TW Node :=
+  { a with store := upd a.store (sibPath a.pos) n, wl := a.wl ++ [sibPath a.pos] }
 def TW.stackEmpty (a : TW Node) : Bool := decide (a.pos.length ≤ cfg.top)
 
 /-- `up` -/
